@@ -71,21 +71,21 @@ type ViolationReport struct {
 
 // ReplayFile is the on-disk replay format.
 type ReplayFile struct {
-	Property string   `json:"property"`
-	Unit     string   `json:"unit"`
-	Package  string   `json:"package"`
-	Rule     string   `json:"rule"`
-	Sig      string   `json:"signature"`
-	Message  string   `json:"message"`
-	BaseSeed uint64   `json:"base_seed"`
-	RunSeed  uint64   `json:"run_seed"`
-	Index    int      `json:"run_index"`
-	Tier     string   `json:"tier"`
-	Tape     []uint32 `json:"tape"`
-	OrigLen  int      `json:"orig_tape_len"`
-	Scenario []KV     `json:"scenario"`
-	LogTail  []string `json:"event_log_tail"`
-	LogHash  string   `json:"event_log_hash"`
+	Property string            `json:"property"`
+	Unit     string            `json:"unit"`
+	Package  string            `json:"package"`
+	Rule     string            `json:"rule"`
+	Sig      string            `json:"signature"`
+	Message  string            `json:"message"`
+	BaseSeed uint64            `json:"base_seed"`
+	RunSeed  uint64            `json:"run_seed"`
+	Index    int               `json:"run_index"`
+	Tier     string            `json:"tier"`
+	Tape     []uint32          `json:"tape"`
+	OrigLen  int               `json:"orig_tape_len"`
+	Scenario []KV              `json:"scenario"`
+	LogTail  []string          `json:"event_log_tail"`
+	LogHash  string            `json:"event_log_hash"`
 	Extra    map[string]string `json:"extra,omitempty"`
 }
 
